@@ -258,9 +258,18 @@ WRAPPERS = [
      lambda x, y: ("list", [x])),
 ]
 
+# wrappers whose value is stored as a typedpy wrapper object (_ListStruct/_DequeStruct/_DictStruct): the UNTYPED
+# field of the same container type, in which a source instance can hold any elements as such a wrapper object.
+# A declaration must validate a value that already IS a wrapper exactly as it validates a plain list/dict.
+LIST_ANY = {"t": "seqany", "k": "list", "sz": [None, None], "uniq": False}
+DEQUE_ANY = {"t": "seqany", "k": "deque", "sz": [None, None], "uniq": False}
+MAP_ANY = {"t": "mapany", "sz": [None, None]}
+HOLDER = {"arr": LIST_ANY, "arrpos": LIST_ANY, "arrpos-closed": LIST_ANY, "arr-arr": LIST_ANY, "arr-anyof": LIST_ANY,
+          "deq": DEQUE_ANY, "mapv": MAP_ANY, "mapk": MAP_ANY, "map-arr": MAP_ANY}
 UPCAST_QUICK = ("id", "arr", "mapv", "anyof", "set", "tup2")
 ENTRY_KINDS = ("ctor", "deser", "from_mapping", "from_other", "cast", "clone", "upcast")
 NK = len(ENTRY_KINDS)
+WRAPPER_KINDS = ("from_other_w", "cast_w", "ctor_w")
 FOLLOW = (None, ["deepcopy"], ["copy"], ["pickle"], None, ["deepcopy"], None)
 
 
@@ -286,7 +295,7 @@ def flat_field(f):
     return False
 
 
-def chains_for(loose, strict, decl, x, good, kinds, follow, looser_sub=None):
+def chains_for(loose, strict, decl, x, good, kinds, follow, looser_sub=None, holder=None):
     """Chains that carry candidate x to field `f` of class `strict` through the entry kinds `kinds`.
     `loose` is a base class of `strict` declaring f = Anything (so that ANY value can sit in a source
     instance handed to from_other_class / cast_to: a DOWN-cast); `looser_sub` is a subclass of `strict`
@@ -315,6 +324,13 @@ def chains_for(loose, strict, decl, x, good, kinds, follow, looser_sub=None):
             if looser_sub is None:
                 continue
             ch = [["ctor", looser_sub[0], [("f", x)]], ["cast", looser_sub[1]]]
+        elif k in ("from_other_w", "cast_w", "ctor_w"):
+            # the candidate reaches the strict declaration as a WRAPPER OBJECT taken from another instance
+            if holder is None:
+                continue
+            src = ["ctor", holder[0], [("f", x)]]
+            ch = [src, ["from_other", holder[1], []]] if k == "from_other_w" else \
+                 [src, ["cast", holder[1]]] if k == "cast_w" else [src, ["ctor_attr", holder[1], "f"]]
         else:
             continue
         out.append(ch + tail)
@@ -357,13 +373,22 @@ def lattice(tier, seed):
                 up = (sub["name"], base2["name"])
             else:
                 up = None
-            plan.append((wi, wname, need_hash, mk_val, decl, strict["name"], up))
+            if wname in HOLDER:
+                hold = {"name": "%sH%d" % (pre, wi), "fields": [{"name": "f", "field": HOLDER[wname]}], "required": [],
+                        "additional": False}
+                strict_h = {"name": "%sS%d" % (pre, wi), "base": hold["name"], "fields": [{"name": "f", "field": decl}],
+                            "required": ["f"], "additional": False}
+                asts += [hold, strict_h]
+                holder = (hold["name"], strict_h["name"])
+            else:
+                holder = None
+            plan.append((wi, wname, need_hash, mk_val, decl, strict["name"], up, holder))
 
         def build(find_good, g=g, li=li, plan=plan, loose=loose):
             chains = []
             xs = near(g)
             y = find_good(plan[0][5], xs)          # plan[0] is the identity wrapper: the leaf itself
-            for wi, wname, need_hash, mk_val, decl, sname, uname in plan:
+            for wi, wname, need_hash, mk_val, decl, sname, uname, holder in plan:
                 cand = xs if wname == "id" else inner(g, 8 if quick else 14)
                 vals = [mk_val(x, y) for x in cand if not (need_hash and not G.is_hashable(x))]
                 good = find_good(sname, vals)
@@ -372,9 +397,10 @@ def lattice(tier, seed):
                         kinds = ENTRY_KINDS if (rich(g) or not quick) else \
                             (ENTRY_KINDS[(vi + li) % NK], ENTRY_KINDS[(vi + li + 3) % NK])
                     else:
-                        kinds = tuple(ENTRY_KINDS[(vi + wi + li + 2 * j) % NK] for j in range(1 if quick else 3))
+                        pool = ENTRY_KINDS + (WRAPPER_KINDS if holder else ())
+                        kinds = tuple(pool[(vi + wi + li + 2 * j) % len(pool)] for j in range(1 if quick else 3))
                     follow = FOLLOW[(vi + wi) % len(FOLLOW)]
-                    for ch in chains_for(loose["name"], sname, decl, v, good, kinds, follow, uname):
+                    for ch in chains_for(loose["name"], sname, decl, v, good, kinds, follow, uname, holder):
                         chains.append((wname, G.shape(g), ch))
             return chains
         groups.append((pre, asts, build))
